@@ -5,6 +5,10 @@ C13 (round 2) — further property theorems: SVG viewBox → viewport mapping, b
 import WpModel.Lemmas.SvgViewport
 import WpModel.Lemmas.ReplacedBg
 import WpModel.Lemmas.ImageDedupe
+import WpModel.Lemmas.ImageScopes
+import WpModel.Lemmas.PngChunks
+import WpModel.Model.SvgCascade
+import WpModel.Gen.SvgNotInherited
 import WpModel.Model.RasterEmbed
 import WpModel.Gen.RasterEmbedGraph
 import WpModel.Model.ImageOrient
@@ -160,6 +164,58 @@ theorem svg_image_box (width height iw ih : Rat) (ir : Option Rat) :
   simp [imageBox, truthy, bind, Except.bind, pure, Except.pure]
 
 
+/-! ## C13.svg_viewport_not_inherited — `svg/__init__.py::Node.cascade` on the regenerated table -/
+
+/-- The attributes that establish a viewport and its viewBox → viewport mapping (`preserveAspectRatio`,
+`viewBox`, `width`, `height`, `x`, `y`, `transform`) are in the regenerated `NOT_INHERITED_ATTRIBUTES`
+(a removal from the source table breaks this proof at the next run). -/
+theorem svg_viewport_attributes_listed :
+    ∀ key ∈ ["preserveAspectRatio", "viewBox", "width", "height", "x", "y", "transform"],
+      Gen.svgNotInherited.contains key = true := by decide
+
+/-- **A nested element never takes the viewport attributes of its ancestors**: for each of those
+attributes, an element that does not write it does not have it after `Node.cascade`, whatever its
+parent carries; an element that writes a value other than `inherit` keeps its own. -/
+theorem svg_viewport_not_inherited (key : String)
+    (hk : key ∈ ["preserveAspectRatio", "viewBox", "width", "height", "x", "y", "transform"])
+    (parent : Option String) :
+    cascadeAttr Gen.svgNotInherited key parent none = none ∧
+    (∀ v, v ≠ "inherit" → cascadeAttr Gen.svgNotInherited key parent (some v) = some v) := by
+  have hin : key ∈ Gen.svgNotInherited := by simpa using svg_viewport_attributes_listed key hk
+  constructor
+  · simp [cascadeAttr, hin]
+  · intro v hv
+    simp [cascadeAttr, hv]
+
+/-- An attribute that is not in the table is handed down to the children that do not write it, and
+`inherit` takes the parent's value for every attribute. -/
+theorem svg_cascade_inherited (notInherited : List String) (key : String) (parent : Option String)
+    (hk : notInherited.contains key = false) :
+    cascadeAttr notInherited key parent none = (match parent with
+      | some s => if s == "inherit" then parent else some s
+      | none => none) ∧
+    cascadeAttr notInherited key parent (some "inherit") = parent := by
+  have hk' : key ∉ notInherited := by simpa using hk
+  constructor
+  · cases parent <;> simp [cascadeAttr, hk']
+  · simp [cascadeAttr]
+
+/-- Hence the viewBox → viewport mapping of a nested `<svg>` / `<image>` / `<marker>` without its own
+`preserveAspectRatio` is the default `xMidYMid meet` one, under any chain of ancestors (finding
+`svg-preserveaspectratio-inherited`, fixed by 358a995: this is its regression theorem). -/
+theorem svg_nested_par_default (ancestors : List (Option String)) (root : Option String) :
+    effectivePar Gen.svgNotInherited (root :: (ancestors ++ [none])) = "xMidYMid" := by
+  have h : ∀ p, cascadeAttr Gen.svgNotInherited "preserveAspectRatio" p none = none :=
+    fun p => (svg_viewport_not_inherited "preserveAspectRatio" (by simp) p).1
+  simp [effectivePar, chainAttr, List.foldl_append, h]
+
+/-- Regression input of the former finding: root `xMaxYMin slice`, nested `<svg viewBox='0 0 2 2'>` of 3 × 1. -/
+example : preserveRatio [0, 0, 2, 2] false (none, none)
+      (effectivePar Gen.svgNotInherited [some "xMaxYMin slice", none]) none 3 1 = .ok ⟨1 / 2, 1 / 2, 1, 0⟩ := by
+  rw [show effectivePar Gen.svgNotInherited [some "xMaxYMin slice", none] = "xMidYMid" from
+    svg_nested_par_default [] (some "xMaxYMin slice")]
+  decide +kernel
+
 /-! ## C13.background_tiles — `draw_background_image` -/
 
 section Tiles
@@ -265,7 +321,7 @@ theorem embed_graph_agrees : ∀ e ∈ Gen.embedGraph, embedSummary e.1 e.2.1 = 
   exact sameSummary_eq _ _ (List.all_eq_true.mp embed_graph_agrees_bool e he)
 
 /-- …and on that whole domain, an image gets an `/SMask` exactly when it has alpha or transparency
-information (the rows that fail to embed, and `I;16`, are the known findings). -/
+information (the rows that are not loaded — modes the PNG encoder cannot write — carry no image at all; `I;16` is the known finding `grey16-embedded-as-rgb8`). -/
 theorem embed_graph_smask :
     Gen.embedGraph.all (fun e => match e.2.2 with
       | none => true
@@ -274,6 +330,43 @@ theorem embed_graph_smask :
 example : decide (Gen.embedGraph.length ≥ 200) = true := by decide +kernel
 
 end EmbedGraph
+
+
+/-! ## C13.png_stream_lossless — `RasterImage._get_png_data` -/
+
+section Png
+open Wp.PngChunks
+
+/-- **The `/FlateDecode` data of an image XObject is the image data of the PNG, bit for bit.**  For every
+PNG file — the 8 signature bytes followed by any sequence of well-formed chunks (any types, any number of
+`IDAT` chunks, any ancillary chunks between them, zero-length chunks included) — `_get_png_data` returns
+exactly the concatenation of the contents of the `IDAT` chunks in file order, i.e. the zlib datastream of
+the image (PNG specification 10.1); nothing of another chunk, of a length field or of a CRC leaks into it,
+and it never fails. -/
+theorem png_stream_lossless (signature : List Nat) (hsig : signature.length = 8) (chunks : List Chunk)
+    (hwf : ∀ c ∈ chunks, Chunk.WF c) :
+    getPngData (signature ++ encodeAll chunks) = .ok (idatPayload chunks) := by
+  unfold getPngData
+  have hdrop : (signature ++ encodeAll chunks).drop 8 = encodeAll chunks := by
+    rw [← hsig]; exact List.drop_left
+  rw [hdrop, loop_chunks chunks _ [] hwf (by
+    have := encodeAll_length chunks
+    simp [List.length_append]; omega)]
+  simp
+
+/-- Non-vacuity: IHDR, a `tEXt`, two IDATs (one of them empty … one of three bytes) and IEND. -/
+example : getPngData ([137, 80, 78, 71, 13, 10, 26, 10] ++ encodeAll
+      [⟨[73, 72, 68, 82], [1, 2], [0, 0, 0, 0]⟩, ⟨idat, [7, 8], [9, 9, 9, 9]⟩, ⟨[116, 69, 88, 116], [5], [1, 1, 1, 1]⟩,
+       ⟨idat, [], [3, 3, 3, 3]⟩, ⟨idat, [4, 5, 6], [2, 2, 2, 2]⟩, ⟨[73, 69, 78, 68], [], [0, 0, 0, 0]⟩]) =
+    .ok [7, 8, 4, 5, 6] := by decide +kernel
+
+/-- A file cut inside a length field is the one failure point (`struct.error`), and a chunk type differing
+from `IDAT` in case is skipped. -/
+example : getPngData ([0, 0, 0, 0, 0, 0, 0, 0] ++ [0, 0]) = .error (.structError "_get_png_data.unpack") ∧
+    getPngData ([0, 0, 0, 0, 0, 0, 0, 0] ++ encodeAll [⟨[105, 100, 97, 116], [1], [0, 0, 0, 0]⟩]) = .ok [] := by
+  constructor <;> decide +kernel
+
+end Png
 
 
 /-! ## C13.image_orientation — `computed_values.image_orientation`, `rotate_pillow_image` -/
@@ -308,24 +401,37 @@ theorem orientation_size {α} (i : Img α) (angle : Nat) (flip : Bool) :
     ((rotatePillow i (.turn angle flip)).2 = (decide (angle > 0) || flip)) ∧
     (rotatePillow i .none = (i, false)) ∧ (rotatePillow i .fromImage = (i, false)) := by
   refine ⟨?_, ?_, ?_, rfl, rfl⟩
-  · rintro (rfl | rfl) <;> cases flip <;> simp [rotatePillow, Img.rotCcw, Img.rotCw, Img.flipLr]
-  · rintro (rfl | rfl) <;> cases flip <;> simp [rotatePillow, Img.rot180, Img.flipLr]
+  · rintro (rfl | rfl) <;> cases flip <;> simp [rotatePillow, Img.pillowRotate, Img.rotCcw, Img.rotCw, Img.flipLr]
+  · rintro (rfl | rfl) <;> cases flip <;> simp [rotatePillow, Img.pillowRotate, Img.rot180, Img.flipLr]
   · by_cases h : angle > 0 <;> cases flip <;> simp [rotatePillow, h]
 
-/-- `0` and `180deg` (with or without `flip`) are what css-images-3 asks for. -/
-theorem orientation_half_turns_match_css {α} (i : Img α) (flip : Bool) :
-    (rotatePillow i (.turn 0 flip)).1 = cssOrient i 0 flip ∧
-    (rotatePillow i (.turn 180 flip)).1 = cssOrient i 180 flip := by
-  cases flip <;> simp [rotatePillow, cssOrient]
+/-- `image-orientation: <angle> [flip]` is what css-images-3 asks for, for every computed angle
+(0, 90, 180, 270) with or without `flip`: rotation to the right, then horizontal flip.
+(Full strength since repair e4e2f8c; before it only the half turns matched — the `_partial` theorem
+`orientation_quarter_turns_partial` stated that 90deg and 270deg were exchanged, finding
+`image-orientation-rotates-ccw`, fixed.) -/
+theorem orientation_matches_css {α} (i : Img α) (angle : Nat) (flip : Bool)
+    (ha : angle = 0 ∨ angle = 90 ∨ angle = 180 ∨ angle = 270) :
+    (rotatePillow i (.turn angle flip)).1 = cssOrient i angle flip := by
+  rcases ha with rfl | rfl | rfl | rfl <;> cases flip <;> simp [rotatePillow, Img.pillowRotate, cssOrient]
 
-/-- PARTIAL (quarter turns): `rotate_pillow_image` applies Pillow's `ROTATE_90` for `90deg`, which is a
-COUNTER-clockwise quarter turn: the result is what css-images-3 specifies for the opposite angle.
-FULL STATEMENT (false of the code, `Witness.orientation_quarter_turn_is_ccw`):
-`(rotatePillow i (.turn a flip)).1 = cssOrient i a flip` for every quarter turn `a`. -/
-theorem orientation_quarter_turns_partial {α} (i : Img α) (flip : Bool) :
-    (rotatePillow i (.turn 90 flip)).1 = cssOrient i 270 flip ∧
-    (rotatePillow i (.turn 270 flip)).1 = cssOrient i 90 flip := by
-  cases flip <;> simp [rotatePillow, cssOrient]
+/-- What "rotate to the right" means on pixels, independently of Pillow's names: after
+`image-orientation: 90deg` the source pixel at column `x`, row `y` is at column `h - 1 - y`, row `x`
+(the top-left pixel goes to the top-right corner); after `270deg` it is at column `y`, row `w - 1 - x`
+(the top-left pixel goes to the bottom-left corner).  Stated for `rotate_pillow_image` itself. -/
+theorem orientation_quarter_turns_clockwise {α} (i : Img α) (x y : Nat) (hx : x < i.w) (hy : y < i.h) :
+    (rotatePillow i (.turn 90 false)).1.px (i.h - 1 - y) x = i.px x y ∧
+    (rotatePillow i (.turn 270 false)).1.px y (i.w - 1 - x) = i.px x y ∧
+    (rotatePillow i (.turn 90 false)).1.w = i.h ∧ (rotatePillow i (.turn 270 false)).1.h = i.w := by
+  refine ⟨?_, ?_, ?_, ?_⟩
+  · simp only [rotatePillow, Img.pillowRotate, Img.rotCw]
+    simp
+    congr 1; omega
+  · simp only [rotatePillow, Img.pillowRotate, Img.rotCcw]
+    simp
+    congr 1; omega
+  · simp [rotatePillow, Img.pillowRotate, Img.rotCw]
+  · simp [rotatePillow, Img.pillowRotate, Img.rotCcw]
 
 /-- The two quarter turns are inverse of each other, and a flip is an involution (on the pixels of the image). -/
 theorem orientation_inverse {α} (i : Img α) (x y : Nat) (hx : x < i.w) (hy : y < i.h) :
@@ -339,8 +445,10 @@ theorem orientation_inverse {α} (i : Img α) (x y : Nat) (hx : x < i.w) (hy : y
   · simp only [Img.rot180]
     congr 1 <;> omega
 
+/-- Regression for the fixed finding `image-orientation-rotates-ccw` (input of the former witness): on the
+two-pixel image `[A B]`, `90deg` puts A on top. -/
 example : ((rotatePillow (Img.ofRows 0 [[10, 20]]) (.turn 90 false)).1.rows, (cssOrient (Img.ofRows 0 [[10, 20]]) 90 false).rows) =
-    ([[20], [10]], [[10], [20]]) := by decide +kernel
+    ([[10], [20]], [[10], [20]]) := by decide +kernel
 
 end Orient
 
@@ -408,6 +516,31 @@ example : (replacedMinContentWidth ⟨none, none, none, some (.pct 50), none, no
 
 end Preferred
 
+
+/-! ## C13.painted_images_defined — every content stream names the images it paints -/
+
+/-- **Painted exactly over that rectangle — in every resource scope.**  For any drawing (images, nested
+transparency groups and tiling patterns, the same image used any number of times anywhere): after
+`Stream.add_image` / `add_group` / `add_pattern`, the `/Resources /XObject` dictionary of *each* content
+stream — the page's, and recursively each group's and each pattern's own one — has an entry for every
+image that stream paints (`/name Do` with an undefined name paints nothing).  The document-wide `images`
+registry makes the XObject unique (`embedded_once`); it must not stand in for the per-stream entry. -/
+theorem painted_images_defined (draws : List ImageDedupe.Draw) :
+    CoveredList draws (ImageDedupe.buildList draws [] []).1 (ImageDedupe.buildList draws [] []).2 :=
+  buildList_covers draws [] []
+
+/-- Non-vacuity: an image used as a background (in a group) and then as `<img>` in the page content is named in
+both dictionaries… -/
+example : (ImageDedupe.buildList [.group [.image "a" true 1 false], .image "a" true 1 false] [] []) =
+    ([.group "x0" [.image "ia1"] [], .image "ia1"], []) := by
+  simp [ImageDedupe.buildList, ImageDedupe.buildOne, ImageDedupe.imageName, ImageDedupe.Node.isImageNamed]
+  decide
+
+/-- …whereas resources in which only the first scope that met the image names it (what registering the name
+after the `already stored in document` early return produces) do not cover the drawing. -/
+example : ¬ CoveredList [.group [.image "a" true 1 false], .image "a" true 1 false]
+    [ImageDedupe.Node.group "x0" [.image "ia1"] []] [] := by
+  simp [CoveredList, Covered, ImageDedupe.Node.isImageNamed]
 
 /-! ## C13.embedded_once (continued) — the dpi ratio handed to `get_x_object` -/
 
